@@ -26,7 +26,7 @@ ASSUMPTIONS = [
     "digit-exactness of builtins.repr(float), black formatting and string quoting are not decided",
     "classes wrapping callables (NormLambda, HedgeLambda) are not representable by design",
 ]
-FLOORS = {"R11": 11, "R1": 60, "R2": 9, "R5": 4, "R6": 3, "R7": 16, "R8": 1, "R9": 3, "T10": 4}
+FLOORS = {"R11": 11, "R12": 1, "R1": 60, "R2": 9, "R5": 4, "R6": 3, "R7": 16, "R8": 1, "R9": 3, "T10": 4}
 
 NOT_REPRESENTABLE = {"NormLambda": "wraps a Python callable", "HedgeLambda": "wraps a Python callable"}
 DIRECTIVES = {("Engine", "load"), ("Function", "load"), ("Linear", "engine"), ("Function", "engine")}
@@ -50,7 +50,7 @@ def init_attrs(c: ClassInfo) -> set[str]:
             return
         seen.add(fn.qualname)
         calls_super = False
-        for x in ast.walk(fn.node):
+        for x in ast.walk(fn.analysis_node):
             if isinstance(x, (ast.Assign, ast.AnnAssign, ast.AugAssign)):
                 for t in (x.targets if isinstance(x, ast.Assign) else [x.target]):
                     for y in ast.walk(t):
@@ -82,6 +82,7 @@ class ReprFacts:
         self.kind = "none"
         self.popped_always: set[str] = set()
         self.popped_cond: list[tuple[str, ast.AST, bool, ast.AST]] = []  # (key, guard, polarity, node)
+        self.guard_terms: dict[tuple[str, int], Term] = {}
         self.added: set[str] = set()
         self.explicit: set[str] | None = None
         self.renamed: dict[str, str] = {}
@@ -95,6 +96,17 @@ class ReprFacts:
             return
         call = rets[-1].ast.value
         t = r.term(call, rets[-1])
+        # `code = representation.as_constructor(...); return code`: look through the temporary
+        hops = 0
+        while isinstance(call, ast.Name) and hops < 4:
+            ds = [d for d in cfg.defs_reaching(call.id, rets[-1]) if d.value is not None]
+            if len(ds) != 1:
+                break
+            call = ds[0].value
+            hops += 1
+        if not isinstance(call, ast.Call):
+            self.kind = "custom"
+            return
         if t[0] == "call" and t[1][0] == "attr" and t[1][2] == "as_constructor":
             self.kind = "as_constructor"
             kw = dict(t[3])
@@ -117,14 +129,19 @@ class ReprFacts:
                         if isinstance(a.value, ast.Call) and isinstance(a.value.func, ast.Attribute) and a.value.func.attr == "pop" and a.value.args and \
                                 isinstance(a.value.args[0], ast.Constant):
                             self.renamed[a.value.args[0].value] = key
-                    for c_ in cfg.calls_in(n):
-                        if isinstance(c_.func, ast.Attribute) and c_.func.attr == "pop" and isinstance(c_.func.value, ast.Name) and \
-                                c_.func.value.id == fname and c_.args and isinstance(c_.args[0], ast.Constant):
-                            key = c_.args[0].value
+                    removed = [c_.args[0].value for c_ in cfg.calls_in(n)
+                               if isinstance(c_.func, ast.Attribute) and c_.func.attr == "pop" and isinstance(c_.func.value, ast.Name) and
+                               c_.func.value.id == fname and c_.args and isinstance(c_.args[0], ast.Constant)]
+                    if isinstance(a, ast.Delete):
+                        removed += [tg.slice.value for tg in a.targets if isinstance(tg, ast.Subscript) and isinstance(tg.value, ast.Name) and
+                                    tg.value.id == fname and isinstance(tg.slice, ast.Constant)]
+                    for key in removed:
+                        if True:
                             guards = cfg.must_guards(n)
                             if guards:
                                 g, pol, gn = guards[-1]
                                 self.popped_cond.append((key, g, pol, n))
+                                self.guard_terms[(key, id(n))] = r.term(g, gn)
                             else:
                                 self.popped_always.add(key)
         else:
@@ -202,40 +219,65 @@ def constructor_fields(check: Check) -> None:
             if prm is None:
                 check.ok("R2", f"{c.qualname}.{key}", f"`{key}` is not a constructor parameter; dropping it is harmless", loc(facts.fn, node))
                 continue
-            ok, why = elision_matches_default(check, c, prm, g, pol)
+            ok, why = elision_matches_default(check, c, prm, facts.guard_terms[(key, id(node))], pol)
             check.require(ok, "R2", f"{c.qualname}.{key}", f"`{key}` is omitted exactly when it holds its constructor default ({why})" if ok else
                           f"`{key}` is omitted when `{unparse(g)}` is {pol}, which is not 'equals the constructor default {unparse(prm.default) if prm.default else None}' ({why})",
                           loc(facts.fn, node))
 
 
-def elision_matches_default(check: Check, c: ClassInfo, prm, g: ast.AST, pol: bool) -> tuple[bool, str]:
+def elision_matches_default(check: Check, c: ClassInfo, prm, gt: Term, pol: bool) -> tuple[bool, str]:
+    """The (resolved) condition under which the field is dropped means `the field holds its constructor default`."""
     d = prm.default
     dsrc = unparse(d) if d is not None else None
-    me = f"self.{prm.name}"
-    gs = unparse(g)
-    # normalise polarity
-    if isinstance(g, ast.UnaryOp) and isinstance(g.op, ast.Not):
-        g, pol, gs = g.operand, not pol, unparse(g.operand)
-    if gs == me:
-        # popped when truthy (pol True) / falsy (pol False)
+    init = c.lookup("__init__")
+    ri = Resolver(check.program, init)
+    first = [s_ for s_, _ in ri.cfg.entry.succ][0]
+    dterm = ri.term(d, first) if d is not None else None
+    me = ("attr", ("param", "self"), prm.name)
+    while (gt[0] == "unop" and gt[1] == "not") or (gt[0] == "call" and gt[1] == ("global", "bool") and len(gt[2]) == 1):
+        if gt[0] == "unop":
+            gt, pol = gt[2], not pol
+        else:
+            gt = gt[2][0]
+
+    def same_value(a: Term, b: Term | None) -> bool:
+        if b is None:
+            return False
+        if a == b:
+            return True
+        ca, cb = const_value(a), const_value(b)
+        if ca is not None and cb is not None and type(ca) is type(cb) and ca == cb:
+            return True
+        # a class constant referred to through the class or through self
+        tail = lambda t: t[1].split(".")[-1] if t[0] == "global" else (t[2] if t[0] == "attr" else None)  # noqa: E731
+        return tail(a) is not None and tail(a) == tail(b)
+
+    if gt == me:
         if pol:
-            return (dsrc == "True", "default True <-> popped when truthy")
+            return (dsrc == "True", "default True <-> dropped when truthy")
         falsy = dsrc in ("''", '""', "None", "False", "0", "[]", "{}")
-        return (falsy, f"default {dsrc} is falsy <-> popped when falsy")
-    if isinstance(g, ast.Call) and unparse(g.func).endswith("is_close") and len(g.args) == 2 and unparse(g.args[0]) == me and pol:
-        return (unparse(g.args[1]) == dsrc, f"close to {unparse(g.args[1])} <-> default {dsrc}")
-    if isinstance(g, ast.Compare) and len(g.ops) == 1 and isinstance(g.ops[0], ast.Eq) and unparse(g.left) == me and pol:
-        other = unparse(g.comparators[0])
-        if dsrc is not None and other.split(".")[-1] == dsrc.split(".")[-1] and dsrc != "None":
-            return (True, f"== {other} <-> default {dsrc}")
-        # default None mapped to a class constant by the constructor: `self.x = x or K`
-        init = c.lookup("__init__")
-        for s in ast.walk(init.node):
-            if isinstance(s, ast.Assign) and unparse(s.targets[0]) == me and isinstance(s.value, ast.BoolOp) and isinstance(s.value.op, ast.Or):
-                if unparse(s.value.values[0]) == prm.name and unparse(s.value.values[1]) == other and dsrc == "None":
-                    return (True, f"default None becomes {other} in the constructor")
-        return (False, f"compared with {other}, default {dsrc}")
-    return (False, "elision guard not recognised")
+        return (falsy, f"default {dsrc} is falsy <-> dropped when falsy")
+    other = None
+    if gt[0] == "call" and gt[1][0] == "global" and gt[1][1].split(".")[-1] in ("is_close", "isclose") and len(gt[2]) >= 2 and me in gt[2][:2] and pol:
+        other = gt[2][1] if gt[2][0] == me else gt[2][0]
+        how = "close to"
+    elif gt[0] == "cmp" and len(gt[2]) == 2 and me in gt[2] and ((gt[1] == ("==",) and pol) or (gt[1] == ("!=",) and not pol) or (gt[1] == ("is",) and pol)):
+        other = gt[2][1] if gt[2][0] == me else gt[2][0]
+        how = "=="
+    if other is None:
+        return (False, f"elision condition `{show(gt)[:60]}` not recognised")
+    if dsrc != "None" and same_value(other, dterm):
+        return (True, f"{how} {show(other)} <-> default {dsrc}")
+    # default None mapped to a constant by the constructor: `self.x = x or K`
+    for m in ri.cfg.stmt_nodes():
+        for tg in ri.cfg.stores_at(m):
+            if isinstance(tg, ast.Attribute) and tg.attr == prm.name and ri.term(tg.value, m) == ("param", "self"):
+                v = ri.term(m.ast.value, m)  # type: ignore[union-attr]
+                if v[0] == "bool" and v[1] == "or" and v[2][0] == ("param", prm.name) and same_value(v[2][1], other) and dsrc == "None":
+                    return (True, f"default None becomes {show(other)} in the constructor")
+                if v[0] == "ifexp" and dsrc == "None" and (same_value(v[2], other) or same_value(v[3], other)) and ("param", prm.name) in (v[2], v[3]):
+                    return (True, f"default None becomes {show(other)} in the constructor")
+    return (False, f"compared with {show(other)}, default {dsrc}")
 
 
 def rule_repr(check: Check, c: ClassInfo) -> None:
@@ -245,7 +287,7 @@ def rule_repr(check: Check, c: ClassInfo) -> None:
     uses_text = "self.text" in src and "Rule.create.__name__" in src
     check.require(uses_text, "R1", "Rule/repr", "a rule is represented as Rule.create('<text>')", loc(fn))
     rt = p.func("Rule.text")
-    covered = {x.attr for x in ast.walk(rt.node) if isinstance(x, ast.Attribute) and isinstance(x.value, ast.Name) and x.value.id == "self"}
+    covered = {x.attr for x in ast.walk(rt.analysis_node) if isinstance(x, ast.Attribute) and isinstance(x.value, ast.Name) and x.value.id == "self"}
     init = c.lookup("__init__")
     for prm in init.params:
         if prm.name == "self":
@@ -280,7 +322,7 @@ def enum_reprs(check: Check) -> None:
         lookup = None
         outer = ename.rsplit(".", 1)[0]
         short = ename.split(".")[-1]
-        for x in ast.walk(init.node):
+        for x in ast.walk(init.analysis_node):
             if isinstance(x, ast.Subscript) and unparse(x.value).endswith(short) and unparse(x.slice) == prm:
                 lookup = "name"
             if isinstance(x, ast.Call) and unparse(x.func).endswith(short) and len(x.args) == 1 and unparse(x.args[0]) == prm:
@@ -298,7 +340,7 @@ def alias_discipline(check: Check) -> None:
     fns = [f for f in p.all_functions() if f.name in ("__repr__", "repr_float", "repr_ndarray", "encapsulate", "as_constructor")]
     n = 0
     for f in fns:
-        lits = [x.value for x in ast.walk(f.node) if isinstance(x, ast.Constant) and isinstance(x.value, str)]
+        lits = [x.value for x in ast.walk(f.analysis_node) if isinstance(x, ast.Constant) and isinstance(x.value, str)]
         doc = ast.get_docstring(f.node) or ""
         bad = [s for s in lits if s != doc and ("fl." in s or "fuzzylite." in s)]
         check.require(not bad, "R5", f"{f.qualname}/literal-alias", "no literal library prefix in the representation" if not bad else
@@ -343,6 +385,38 @@ def alias_discipline(check: Check) -> None:
         ok = bool(special) and all(any(s_ == pk2 for s_ in walk(t)) for t in special)
         check.require(ok, "R5", f"{qual}/prefix", "inf / nan / array are prefixed through package_of(settings)" if ok else
                       f"representation is {[show(t) for t in special]}", loc(f))
+    # R12: who may turn a number into text. Inside the array printer every element goes through the dispatcher (repr1 -> repr_float
+    # for floats, which spells inf/nan with the library prefix); no other stringifier touches the elements.
+    f = p.func("Representation.repr_ndarray")
+    r = Resolver(p, f)
+    RAW = {"repr", "builtins.repr", "str", "builtins.str", "format", "builtins.format", "numpy.array2string", "numpy.array_repr", "numpy.array_str",
+           "numpy.format_float_positional", "numpy.format_float_scientific", "fuzzylite.operation.Operation.str"}
+    raw_uses = []
+    dispatched = False
+    xparam = ("param", f.params[1].name)
+    for n in r.cfg.stmt_nodes():
+        if n.copy:
+            continue
+        for e in r.cfg.exprs_of(n):
+            t = r.term(e, n)
+            for s_ in walk(t):
+                if s_[0] == "global" and s_[1] in RAW:
+                    raw_uses.append((n, s_[1]))
+                if s_[0] == "call" and s_[1][0] == "attr" and s_[1][2] in ("tolist", "astype", "tostring", "tobytes") and any(q == xparam for q in walk(s_[1][1])):
+                    raw_uses.append((n, f"ndarray.{s_[1][2]}"))
+                if s_[0] == "fstr" and any(part[0] != "const" and any(q == ("elem", xparam) or q == xparam for q in walk(part)) and
+                                           not any(q[0] == "call" and q[1][0] == "attr" and q[1][2] in ("repr1", "repr") for q in walk(part)) and
+                                           part[0] not in ("call",) for part in s_[1]):
+                    raw_uses.append((n, "f-string"))
+                if s_[0] == "call" and s_[1] == ("attr", ("param", "self"), "repr1") and s_[2] and s_[2][0][0] == "elem" and \
+                        any(q == xparam for q in walk(s_[2][0])):
+                    dispatched = True
+    ok = dispatched and not raw_uses
+    check.require(ok, "R12", "Representation.repr_ndarray/elements",
+                  "every element of an array is printed through self.repr1 (so floats reach repr_float); no raw stringifier is applied to the array" if ok else
+                  (f"the elements of an array can be printed by `{raw_uses[0][1]}` instead of the dispatcher: an infinite (or NaN) element is written "
+                   "as a bare `inf`, which is not defined when the code is evaluated under an alias other than '*'" if raw_uses else
+                   "no call self.repr1(element, ...) on the elements of the array was found"), loc(f, raw_uses[0][0] if raw_uses else f.node))
     ac = p.func("Representation.as_constructor")
     check.analysed(ac)
     r, rets = ret_terms(ac)
@@ -451,15 +525,42 @@ def python_exporter(check: Check) -> None:
     ok = bool(alts) and all(any(s_ == imp for s_ in walk(a_)) and any(s_ == rp for s_ in walk(a_)) for a_ in alts)
     check.require(ok, "R9", "PythonExporter.encapsulate/content", "encapsulated code = import statement + the object's representation" if ok else
                   f"encapsulated code is {[show(a_)[:140] for a_ in alts]}", loc(enc))
+    # to_string: the returned text along every path, for the four settings of (encapsulated, formatted)
+    from ..guards import RoleEval, paths, specialise
+    from ..sym import PathResolver
+
     r = Resolver(p, ts)
-    first = [n for n in r.cfg.stmt_nodes() if isinstance(n.ast, ast.Assign)][0]
-    t = r.term(first.ast.value, first)
-    ok = t[0] == "ifexp" and path_of(t[1]) == "self.encapsulated" and t[2][0] == "call" and t[2][1] == ("attr", ("param", "self"), "encapsulate") and \
-        t[3][0] == "call" and t[3][1][0] == "global" and t[3][1][1].endswith("repr")
-    check.require(ok, "R9", "PythonExporter.to_string/switch", "encapsulated iff self.encapsulated, else the plain representation", loc(ts))
-    fm = [n for n in r.cfg.stmt_nodes() if any(isinstance(c.func, ast.Attribute) and c.func.attr == "format" for c in r.cfg.calls_in(n))]
-    ok = bool(fm) and any(path_of(r.term(g, gn)) == "self.formatted" and pol for g, pol, gn in r.cfg.must_guards(fm[0]))
-    check.require(ok, "R9", "PythonExporter.to_string/format", "formatting is applied iff self.formatted", loc(ts))
+    cfg = r.cfg
+
+    def classify(t: Term, e):  # type: ignore[no-untyped-def]
+        return {"self.encapsulated": "encapsulated", "self.formatted": "formatted"}.get(path_of(t) or "")
+
+    inst_t = ("param", ts.params[1].name)
+    plain = ("call", ("global", "repr"), (inst_t,), ())
+    wrapped = ("call", ("attr", ("param", "self"), "encapsulate"), (inst_t,), ())
+    first = [s_ for s_, _ in cfg.entry.succ][0]
+    bad_switch, bad_format, rows = [], [], 0
+    for enc_v in (True, False):
+        for fmt_v in (True, False):
+            ev = RoleEval(r, classify)
+            got = set()
+            for pa in paths(cfg, first, ev, {"encapsulated": enc_v, "formatted": fmt_v}, set()):
+                rn = [x for x in pa if x.kind == "stmt" and isinstance(x.ast, ast.Return) and x.ast.value is not None]
+                if not rn:
+                    got.add(("none",))
+                    continue
+                pr = PathResolver(p, ts, pa)
+                got.add(specialise(pr.at(rn[-1].ast.value, pr.index_of(rn[-1])), ev, {"encapsulated": enc_v, "formatted": fmt_v}))
+            rows += 1
+            base = wrapped if enc_v else plain
+            want = ("call", ("attr", ("param", "self"), "format"), (base,), ()) if fmt_v else base
+            if got != {want}:
+                inner = {g_[2][0] if g_[0] == "call" and g_[1] == ("attr", ("param", "self"), "format") and len(g_[2]) == 1 else g_ for g_ in got}
+                (bad_switch if inner != {base} else bad_format).append((enc_v, fmt_v, sorted(show(g_)[:80] for g_ in got)))
+    check.require(not bad_switch, "R9", "PythonExporter.to_string/switch", "encapsulated iff self.encapsulated, else the plain representation" if not bad_switch else
+                  f"(encapsulated, formatted) -> returned text: {bad_switch[:2]}", loc(ts), exhaustive=True, cases=rows)
+    check.require(not bad_format, "R9", "PythonExporter.to_string/format", "formatting is applied iff self.formatted" if not bad_format else
+                  f"(encapsulated, formatted) -> returned text: {bad_format[:2]}", loc(ts), exhaustive=True, cases=rows)
 
 
 REPRLIB_LIMITS = ["maxtuple", "maxlist", "maxarray", "maxdict", "maxset", "maxfrozenset", "maxdeque", "maxstring", "maxlong", "maxother"]
@@ -473,7 +574,7 @@ def repr_limits(check: Check) -> None:
     rep = p.cls("Representation")
     check.require(any(b.endswith("Repr") for b in rep.external_bases), "R11", "Representation/base", "Representation specialises reprlib.Repr", rep.loc())
     raised: set[str] = set()
-    for x in ast.walk(fn.node):
+    for x in ast.walk(fn.analysis_node):
         if isinstance(x, (ast.AugAssign, ast.Assign)):
             for t in ([x.target] if isinstance(x, ast.AugAssign) else x.targets):
                 if isinstance(t, ast.Attribute) and isinstance(t.value, ast.Name) and t.value.id == "self" and t.attr.startswith("max"):
@@ -485,7 +586,7 @@ def repr_limits(check: Check) -> None:
             if isinstance(it, ast.Call) and isinstance(it.func, ast.Attribute) and it.func.attr == "split" and not it.args:
                 src = it.func.value
                 if isinstance(src, ast.Name):
-                    for a_ in ast.walk(fn.node):
+                    for a_ in ast.walk(fn.analysis_node):
                         if isinstance(a_, ast.Assign) and isinstance(a_.targets[0], ast.Name) and a_.targets[0].id == src.id and isinstance(a_.value, ast.Constant):
                             src = a_.value
                 if isinstance(src, ast.Constant) and isinstance(src.value, str):
